@@ -450,7 +450,9 @@ def case_for_target(ev, killed, target, old, new, final, proto, interner):
                 rem = remaining.get(e["path"], len(new))
                 oracle.append("Ok" if n >= rem else "Short %d" % n)
                 remaining[e["path"]] = rem - n
-    changed = old != new
+    attempted = tmp is not None or any(e["call"] == "open" and e["kind"] == "trunc" and e["path"] == target for e in ev)
+    # the program is only started for a file that could be read and that formatting changes
+    changed = old != new and (attempted or killed)
     term = ("{| c_old := %s; c_new := %s; c_trace := %s; c_final := %s; c_tmp := %d; c_oracle := %s; c_killed := %s; c_changed := %s |}"
             % (interner.get(old), interner.get(new), coq_list(ops),
                "None" if final is None else "(Some %s)" % interner.get(final), tmp_id, coq_list(oracle),
@@ -678,8 +680,8 @@ def main(argv):
         interner = Interner()
         terms, infos = [], []
         corpus = load_corpus()
-        n_tie = ck.scale(3, 8)
-        n_search = ck.scale(7, 40)
+        n_tie = ck.scale(2, 8)
+        n_search = ck.scale(4, 40)
         scenarios = [(sc, True) for sc in corpus if not sc.get("search_only")]
         scenarios += [(gen_scenario(rng, i), True) for i in range(n_tie)]
         scenarios += [(sc, False) for sc in corpus if sc.get("search_only")]
@@ -687,9 +689,11 @@ def main(argv):
         full = ck.tier == "thorough" or ck.deep
         for sc, tie in scenarios:
             run_scenario(ck, luafmt, sc, proto, tie, full, interner, terms, infos, stats)
+            ck.log("scenario", sc["id"], "runs so far", stats["runs"], "violations", stats["violations"])
             if stats["violations"] > 40:
                 break
         ck._c39_prelude = "\n".join(interner.defs) + "\n"
+        ck.log("evaluating", len(terms), "traces in Coq")
         evaluate_cases(ck, terms, infos, proto)
         ck.cov["distribution"] = stats
         ck.cov["distribution"]["traces_in_coq"] = len(terms)
